@@ -1495,8 +1495,17 @@ where
             return;
         };
 
-        let props_types = self.extract_props_type(maybe_setup);
-        let emits_types = self.extract_emits_type(maybe_setup);
+        // what the user wrote wins, so there is nothing to infer (and nothing to import or report) for it
+        let props_types = if has_define_component_option(call_expr, "props") {
+            None
+        } else {
+            self.extract_props_type(maybe_setup)
+        };
+        let emits_types = if has_define_component_option(call_expr, "emits") {
+            None
+        } else {
+            self.extract_emits_type(maybe_setup)
+        };
         if let Some(prop_types) = props_types {
             inject_define_component_option(call_expr, "props", prop_types);
         }
@@ -1529,40 +1538,52 @@ where
     }
 }
 
+/// Tells whether the options object literal of a `defineComponent` call already has the given key.
+fn has_define_component_option(call: &CallExpr, name: &str) -> bool {
+    let Some(ExprOrSpread { spread: None, expr }) = call.args.get(1) else {
+        return false;
+    };
+    let Expr::Object(object) = &**expr else {
+        return false;
+    };
+    let is_name = |key: &PropName| match key {
+        PropName::Ident(ident) => ident.sym == name,
+        PropName::Str(str) => str.value == name,
+        _ => false,
+    };
+    object.props.iter().any(|prop| match prop {
+        PropOrSpread::Prop(prop) => match &**prop {
+            Prop::Shorthand(ident) => ident.sym == name,
+            Prop::Assign(AssignProp { key, .. }) => key.sym == name,
+            Prop::KeyValue(KeyValueProp { key, .. })
+            | Prop::Getter(GetterProp { key, .. })
+            | Prop::Setter(SetterProp { key, .. })
+            | Prop::Method(MethodProp { key, .. }) => is_name(key),
+        },
+        PropOrSpread::Spread(..) => false,
+    })
+}
+
 fn inject_define_component_option(call: &mut CallExpr, name: &'static str, value: Expr) {
     // a spread argument list is left alone: the options may come from any part of it
     if call.args.iter().any(|arg| arg.spread.is_some()) {
+        return;
+    }
+    if has_define_component_option(call, name) {
         return;
     }
     let options = call.args.get_mut(1);
 
     match options.map(|options| &mut *options.expr) {
         Some(Expr::Object(object)) => {
-            let is_name = |key: &PropName| match key {
-                PropName::Ident(ident) => ident.sym == name,
-                PropName::Str(str) => str.value == name,
-                _ => false,
-            };
-            if !object.props.iter().any(|prop| match prop {
-                PropOrSpread::Prop(prop) => match &**prop {
-                    Prop::Shorthand(ident) => ident.sym == name,
-                    Prop::Assign(AssignProp { key, .. }) => key.sym == name,
-                    Prop::KeyValue(KeyValueProp { key, .. })
-                    | Prop::Getter(GetterProp { key, .. })
-                    | Prop::Setter(SetterProp { key, .. })
-                    | Prop::Method(MethodProp { key, .. }) => is_name(key),
-                },
-                PropOrSpread::Spread(..) => false,
-            }) {
-                let injected = PropOrSpread::Prop(Box::new(Prop::KeyValue(KeyValueProp {
-                    key: PropName::Ident(quote_ident!(name)),
-                    value: Box::new(value),
-                })));
-                // options spread by user may carry the same key and must win
-                match object.props.iter().position(|prop| prop.is_spread()) {
-                    Some(index) => object.props.insert(index, injected),
-                    None => object.props.push(injected),
-                }
+            let injected = PropOrSpread::Prop(Box::new(Prop::KeyValue(KeyValueProp {
+                key: PropName::Ident(quote_ident!(name)),
+                value: Box::new(value),
+            })));
+            // options spread by user may carry the same key and must win
+            match object.props.iter().position(|prop| prop.is_spread()) {
+                Some(index) => object.props.insert(index, injected),
+                None => object.props.push(injected),
             }
         }
         Some(..) => {
